@@ -168,6 +168,36 @@ PROPS['C04'] = dict(
     explanation='Inductive invariant over a counter-abstracted LTS of close/PipeTo/Result with unboundedly many threads: one CAS winner, closer once, done implies written, forwarder conservation; at quiescence every forwarder told the final result exactly once (repaired PipeTo) and a 4-step witness for the code as found.',
 )
 
+FRAME_HITS = ['coalesced', 'split-1', 'byte-by-byte', 'split-random', 'cut', 'undecodable', 'close-frame', 'invalid-length', 'large']
+PROPS['C11'] = dict(
+    modules=['Vivid.Props.C11'],
+    gens=[],
+    engines=[dict(name='framing', must_hit=FRAME_HITS + ['burst'])],
+    rule='framing: (rx) a real tcpConnectionActor spawned in a real system reads from a net.Pipe whose writer delivers a byte stream in exactly the chunks given — every frame boundary pattern: all frames in one read, '
+         'one byte per read, every 2-split of short streams, seeded random splits, payloads up to just under 4 MiB — and the decoded envelopes / decode failures / invalid lengths / fatal reads are compared, in order, with the model receiver; '
+         '(burst) two real systems over loopback TCP, 1-4 concurrent senders x 200-5000 messages (pad 0-2 KiB): per-sender order, exactly once, intact payload, sender reference (monitor only). Non-trivial = every case.',
+    trusted_base=COMMON_TRUST + ['net.Pipe as the model of a TCP byte stream delivering arbitrary read boundaries', 'the fake envelope handler / logger capture used to observe deliveries'],
+    assumptions=['partial: the sender side of a healthy link (one connection per address under connectionLock, whole-frame writes) is observed by the loopback bursts, not proved; Ask/Reply routing over the link is covered by C15\'s engine',
+                 'the 10 s handshake deadlines that are never cleared make an idle link reconnect; with default options no message is lost (soak case), so it is reported in DESIGN.md only'],
+    explanation='Receiver = fold over length-prefixed frames with io.ReadFull semantics; theorems: any chunking of frame(p1)++..++frame(pn) yields exactly p1..pn in order (reassembly, chunking independence). Tie: lock-step with the real connection actor over controlled read boundaries + loopback bursts.',
+)
+
+PROPS['C14'] = dict(
+    modules=['Vivid.Props.C14', 'Vivid.Props.C14SendLoop'],
+    gens=[],
+    engines=[dict(name='framing', must_hit=['cut', 'undecodable', 'invalid-length']),
+             dict(name='sendloop', must_hit=['op:break', 'op:down', 'op:up', 'limit:0', 'limit:1', 'limit:2']),
+             dict(name='remote', nomodel=True, must_hit=['rm:refused', 'rm:recover', 'rm:cut-mid', 'rm:cut-prefix', 'rm:cut-mid-limit0'])],
+    rule='framing: streams cut after every byte offset (inside a prefix, inside a body, between frames), frames with invalid length or undecodable payload: events compared with the model receiver. '
+         'sendloop: the real Mailbox.Enqueue / ExponentialBackoff.Try in a real system against a harness-owned peer that accepts, refuses (down), resets the connection (break) and returns (up): per Tell sent/dead, and at the end '
+         'the peer\'s received sequence, the dead letters and the number of accepted connections, compared with the model for budgets 0..2. remote (monitor only): refused peer -> exactly one dead letter per message, Tell latency; '
+         'recovery; connection reset inside a prefix / a body -> received is a duplicate-free in-order subsequence, nothing both delivered and dead, tail delivered.',
+    trusted_base=COMMON_TRUST + ['net.Pipe / loopback TCP with SO_LINGER 0 resets as the fault injector', 'wall-clock waits (<= 300 ms) to decide "dead-lettered" vs "received"'],
+    assumptions=['faults modelled: refused dial and connection reset (the next write fails). An orderly FIN close, after which the kernel accepts one more write that is then lost without a dead letter, is not modelled (the property allows loss: "a subsequence")',
+                 'partial: "Tell returns promptly" is a runtime fact; the code as found violates it (KNOWN-FINDING TELL-BLOCKS), measured by the remote engine'],
+    explanation='Receiver: a stream cut at any byte yields a prefix of the sent frames, garbage frames are skipped (C14_cut_prefix, C14_resync). Sender: dead letter iff all limit+1 attempts fail (closed form), recovery with budget >= 1, one fault costs at most one message, delivered/dead are an order-preserving partition of the sent sequence (C14_partition).',
+)
+
 # Text of level_claimed per property (MANIFEST); NOT_APPLICABLE: properties not claimed, with reason.
 LEVEL_TEXT = {}
 NOT_APPLICABLE = {}
